@@ -111,6 +111,7 @@ func (e *env) done() {
 }
 
 type stub[T any] struct {
+	stat    stubStat
 	items   []T
 	pos     int
 	term    int
@@ -170,9 +171,10 @@ func (s *stub[T]) Stop() {
 func (s *stub[T]) IsOrdered() bool { return s.ordered }
 
 func newStubItems[T any](e *env, in InSpec, items []T) *stub[T] {
-	st := &stubStat{}
-	e.stats = append(e.stats, st)
-	return &stub[T]{term: in.term(), e: e, st: st, ordered: true, items: items}
+	s := &stub[T]{term: in.term(), e: e, ordered: true, items: items}
+	s.st = &s.stat
+	e.stats = append(e.stats, s.st)
+	return s
 }
 
 // carrier: how an item (sym, input i, position k) is materialised for the implementation (mk) and what a consumer
@@ -340,24 +342,30 @@ type view[U any] struct {
 	sym  func(U) byte
 }
 
-func mkObs[U any](v U, err error, vw view[U]) obs {
+func mkObs[U any](v U, err error, vw *view[U]) obs {
 	if err != nil {
 		return errObs(err)
 	}
 	return obs{K: 'v', ID: vw.show(v), Sym: vw.sym(v)}
 }
 
-// implIter is the adapter under test behind closures.
-type implIter struct {
-	next func() obs
-	head func() obs
-	stop func()
+// implIter is the adapter under test.
+type implIter interface {
+	next() obs
+	head() obs
+	stop()
 }
 
-func wrapIter[U any](e *env, it storage.Iterator[U], vw view[U]) implIter {
-	return implIter{
-		next: func() obs { v, err := it.Next(e.ctx); return mkObs(v, err, vw) },
-		head: func() obs { v, err := it.Head(e.ctx); return mkObs(v, err, vw) },
-		stop: it.Stop,
-	}
+type iterImpl[U any] struct {
+	e  *env
+	it storage.Iterator[U]
+	vw *view[U]
+}
+
+func (w *iterImpl[U]) next() obs { v, err := w.it.Next(w.e.ctx); return mkObs(v, err, w.vw) }
+func (w *iterImpl[U]) head() obs { v, err := w.it.Head(w.e.ctx); return mkObs(v, err, w.vw) }
+func (w *iterImpl[U]) stop()     { w.it.Stop() }
+
+func wrapIter[U any](e *env, it storage.Iterator[U], vw *view[U]) implIter {
+	return &iterImpl[U]{e: e, it: it, vw: vw}
 }
